@@ -18,4 +18,6 @@ def run(ctx):
     ca.claim_only(ctx)
     ctx.rule("R-NORMAL-PAIR", "a CA that reads as operational already holds its address (address stored before the state; answers come from that address)", floor=3)
     ca.normal_pair(ctx)
+    ctx.rule("R-CA-REGISTRY", "subscribe_request records the callback in the list the request handler walks", floor=1)
+    ca.ca_registry_steps(ctx, which=("subscribe_request",))
     return "request encoding/decoding, dispatch guard, handler guard formula and fan-out decided for all PGNs and addresses"
